@@ -296,7 +296,20 @@ def build_type(dt):
 def second_object(obj, dt):
     """the other object every case is executed on: the type rebuilt from its description - or, for types holding a
     LimitsType (described as a plain tuple, the ordering cannot be rebuilt), its copy()"""
-    return obj.copy() if has_limit(dt) else rebuild_type(obj)
+    if has_limit(dt):
+        return obj.copy()
+    try:
+        return rebuild_type(obj)
+    except Exception:   # noqa: a description that cannot be rebuilt is C03's (and C02's) business
+        return obj
+
+
+def try_rebuild(obj):
+    """rebuild_type, or None when the description is refused"""
+    try:
+        return rebuild_type(obj)
+    except Exception:   # noqa
+        return None
 
 
 def rebuild_type(obj):
@@ -924,9 +937,13 @@ def rand_type(rnd, depth, open_strings=False, big=True):
         return {'k': k, 'minc': lo, 'maxc': NOLIM if nolim else lo + rnd.randint(0, 5), 'utf8': rnd.random() < 0.5}
     if k == 'blob':
         lo = rnd.randint(0, 4)
+        if rnd.random() < 0.1:
+            return {'k': k, 'minb': 0, 'maxb': 0}          # only the empty blob
         return {'k': k, 'minb': lo, 'maxb': lo + rnd.randint(0 if lo else 1, 6)}
     if k == 'array':
         lo = rnd.randint(0, 2)
+        if rnd.random() < 0.1:
+            return {'k': k, 'el': rand_type(rnd, depth - 1, open_strings, big), 'minlen': 0, 'maxlen': 0}   # only the empty array
         return {'k': k, 'el': rand_type(rnd, depth - 1, open_strings, big), 'minlen': lo, 'maxlen': lo + rnd.randint(0 if lo else 1, 3)}
     if k == 'tuple':
         if big and rnd.random() < 0.25:      # LimitsType over a numeric type
@@ -1109,8 +1126,7 @@ def rand_valid(rnd, dt, obj):
         lo, hi = gpos_int(dt['min']['a'], dt['min']['d']), gpos_int(dt['max']['a'], dt['max']['d'])
         inside = [n for n in (2 ** 53 - 1, 2 ** 53 - 3, 2 ** 52 + 1, 2 ** 52 + 3, 3 * 2 ** 51 + 5, -(2 ** 53) + 1, -(2 ** 52) - 1, 1, 0)
                   if lo <= n <= hi]
-        # (+-2^53 itself is left to C01, see VS in Datatypes.tla)
-        return rnd.choice([n for n in [lo, hi, max(lo, hi - rnd.randint(0, 3))] + inside if abs(n) != 2 ** 53]) * SCALES[dt['sid']]
+        return rnd.choice([lo, hi, max(lo, hi - rnd.randint(0, 3))] + inside) * SCALES[dt['sid']]
     if k == 'gscaled':
         return rnd.choice((dt['min'], dt['max'], rnd.randint(dt['min'], dt['max']))) * SCALES[dt['sid']]
     if k == 'bigint':
@@ -1167,7 +1183,10 @@ def rt_records(obj, reb, dt, av, conc, extra=None):
         return recs
     v1, _ = outcome_of(lambda: obj.validate(obj.import_value(j)), dt, av, conc)
     j2 = json.loads(json.dumps(j))
-    v2, cval = outcome_of(lambda: reb.validate(reb.import_value(j2)), dt, av, conc)
+    if reb is None:          # the client could not build the datatype from the description
+        v2, cval = {'ok': False, 'e': 'rebuild failed'}, None
+    else:
+        v2, cval = outcome_of(lambda: reb.validate(reb.import_value(j2)), dt, av, conc)
     recs.append(dict(base, kind='rt.wire', v1=v1, v2=v2))
     if not v2['ok']:
         return recs          # the client never holds this value
